@@ -6,8 +6,12 @@ import (
 	"flag"
 	"fmt"
 	"os"
+	"reflect"
+	"sort"
+	"strings"
 
 	"github.com/hashicorp/go-bexpr/grammar"
+	"verif/harness/av"
 	"verif/harness/expr"
 	"verif/harness/run"
 )
@@ -42,6 +46,8 @@ type relCtx struct {
 	skip   map[string]int
 	byRel  map[string]int
 	cache  map[string]map[int][]string // text -> cfg -> outcomes per doc
+	errTxt map[string]map[int][]string // text -> cfg -> error texts per doc
+	marks  map[int][]string            // c08: first document of a pair -> strings that only one document of the pair contains
 	evals  int
 	sample []interface{}
 	reps   int
@@ -111,15 +117,63 @@ func (c *relCtx) obs(t *expr.Expr, st expr.Style, ci, di int) (string, string) {
 		return "", text
 	}
 	outs := make([]string, len(c.docs))
+	errs := make([]string, len(c.docs))
 	for i, d := range c.docs {
-		outs[i] = run.Eval(ev, d).O
+		o := run.Eval(ev, d)
+		outs[i], errs[i] = o.O, o.Err
 		c.evals++
 	}
 	if c.cache[key] == nil {
 		c.cache[key] = map[int][]string{}
+		c.errTxt[key] = map[int][]string{}
 	}
 	c.cache[key][ci] = outs
+	c.errTxt[key][ci] = errs
 	return outs[di], text
+}
+
+// pairMarks: the strings (3 characters and more) that occur in exactly one document of the pair (di, di+1) - by construction of
+// the pair worlds, content of hidden or unexported fields.
+func (c *relCtx) pairMarks(di int) []string {
+	if m, ok := c.marks[di]; ok {
+		return m
+	}
+	var collect func(a av.AV, set map[string]bool)
+	collect = func(a av.AV, set map[string]bool) {
+		if a.K == "str" && len(a.Str) >= 3 {
+			set[a.Str] = true
+		}
+		if a.To != nil {
+			collect(*a.To, set)
+		}
+		for _, x := range a.List {
+			collect(x, set)
+		}
+		for _, e := range a.Ents {
+			collect(e.Key, set)
+			collect(e.Val, set)
+		}
+		for _, f := range a.F {
+			collect(f.V, set)
+		}
+	}
+	sa, sb := map[string]bool{}, map[string]bool{}
+	collect(av.Abstract(reflect.ValueOf(c.docs[di])), sa)
+	collect(av.Abstract(reflect.ValueOf(c.docs[di+1])), sb)
+	var m []string
+	for k := range sa {
+		if !sb[k] {
+			m = append(m, k)
+		}
+	}
+	for k := range sb {
+		if !sa[k] {
+			m = append(m, k)
+		}
+	}
+	sort.Strings(m)
+	c.marks[di] = m
+	return m
 }
 
 func not(e *expr.Expr) *expr.Expr { return &expr.Expr{T: "not", E: e} }
@@ -536,7 +590,7 @@ func cmdRelate(args []string) error {
 	}
 	defer g.Close()
 	ctx := &relCtx{w: w, docs: docs[0], cfgs: cfgs, out: bufio.NewWriter(g), skip: map[string]int{}, byRel: map[string]int{},
-		cache: map[string]map[int][]string{}, reps: *reps}
+		cache: map[string]map[int][]string{}, errTxt: map[string]map[int][]string{}, marks: map[int][]string{}, reps: *reps}
 	sc := bufio.NewScanner(f)
 	sc.Buffer(make([]byte, 1<<20), 1<<28)
 	trees := 0
@@ -583,6 +637,23 @@ func cmdRelate(args []string) error {
 							info["expr"] = text
 							info["doc2"] = w.Docs[di+1].Name
 							ctx.emit(group{Rel: "same", Obs: []string{a, b}, Info: info})
+							// unobservable also means: no error text shows content that only hidden fields hold
+							if et := ctx.errTxt[text][ci]; et != nil && (et[di] != "" || et[di+1] != "") {
+								leak := ""
+								for _, m := range ctx.pairMarks(di) {
+									if strings.Contains(text, m) {
+										continue // the expression itself spells it (errors quote the literal)
+									}
+									if strings.Contains(et[di], m) || strings.Contains(et[di+1], m) {
+										leak = m
+									}
+								}
+								i2 := map[string]interface{}{"law": "an error text never shows content that only hidden fields hold", "expr": text, "doc": info["doc"], "doc2": info["doc2"], "cfg": info["cfg"]}
+								if leak != "" {
+									i2["shown"], i2["error"], i2["error2"] = leak, trunc(et[di]), trunc(et[di+1])
+								}
+								ctx.emit(group{Rel: "flag", Ok: leak == "", Info: i2})
+							}
 						}
 					}
 				default:
